@@ -741,6 +741,50 @@ def sqrt_boundary_rule(repo, rep, mod, q, param, witnesses, what):
 
 
 
+def float_accuracy_rule(repo, rep, mod, q, param, witnesses, reference, tol, suffix, what):
+    """the other boundary: inputs on which an intermediate DIFFERENCE vanishes in exact arithmetic (a circular covariance: equal eigenvalues).
+    A formula that is algebraically the reference but forms that difference from two large terms (tr^2 - 4 det instead of (v00 - v11)^2 +
+    4 v01^2) loses half of the digits there or takes the root of a negative number.  The function is evaluated in IEEE doubles on witnesses
+    that a symbolic argument singles out (the vanishing set of the discriminant, a few ulps off it) and compared with the reference evaluated
+    in 60-digit decimals: relative deviation above `tol` in any component is a violation."""
+    f = repo.func(mod, q)
+    key = 'R-DOMAIN::%s::%s::%s' % (f.module.relpath, q, suffix)
+    worst = None
+    unsupported = None
+    n_ok = 0
+    for wname, wval in witnesses:
+        try:
+            got = float_run(f, {param: wval})
+        except ValueError as e:
+            if 'unsupported' in str(e):
+                unsupported = str(e)
+                continue
+            worst = (float('inf'), wname, 'raises "%s"' % e, f.node)
+            break
+        except (ZeroDivisionError, OverflowError, TypeError, IndexError) as e:
+            unsupported = str(e)
+            continue
+        want = reference(wval)
+        if not isinstance(got, tuple) or len(got) < len(want):
+            unsupported = 'result is not a tuple of %d' % len(want)
+            continue
+        n_ok += 1
+        for i, (g_, w_) in enumerate(zip(got, want)):
+            if w_ is None:
+                continue
+            scale = max(abs(w_), 1e-300)
+            dev = abs(g_ - w_) / scale
+            if dev > tol and (worst is None or dev > worst[0]):
+                worst = (dev, wname, 'component %d is %.17g, the eigenvalue formula gives %.17g (relative deviation %.2g)' % (i, g_, w_, dev), f.node)
+    if worst:
+        rep.violated('R-DOMAIN', key, where(f, worst[3]), '%s: %s - the formula cancels where the discriminant vanishes (%s)' % (worst[1], worst[2], what),
+                     expected='the discriminant formed from (v00 - v11) and v01 directly: accurate to a few ulps', actual=worst[2][:80])
+    elif unsupported and not n_ok:
+        rep.undecided('R-DOMAIN', key, where(f, f.node), '%s uses a construct outside the straight-line numeric subset: %s' % (q, unsupported))
+    else:
+        rep.holds('R-DOMAIN', key, where(f, f.node), '%s agrees with the 60-digit reference to %.0e on the %d witnesses next to the vanishing set of the discriminant' % (q, tol, n_ok))
+
+
 def identity_flag_rule(repo, rep, modname):
     """a parameter that the callee tests by IDENTITY (`flag is False`, `flag is None`) must be handed True / False / None themselves: the
     result of a comparison is a bool only for Python numbers - for numpy scalars (an np.float64 taken from an array is a float) it is a
@@ -815,6 +859,53 @@ def unclamped_root_rule(repo, rep, mod, q, what):
         rep.violated('R-DOMAIN', key, where(f, n), '`%s`: the element is a variance obtained by rotating the covariances; for a singular input (%s) it is zero in exact arithmetic and '
                      '-2e-20 in doubles, and the root is nan (relative_error(30, 10, horizontal-only covariance, 0, 0) returns an up error of nan)' % (stmt_text(n)[:50], what),
                      expected='max(%s, 0) ** 0.5' % stmt_text(a)[:30], actual=stmt_text(n)[:60])
+
+
+
+def ctor_sign_table(repo, rep):
+    """sign inferred by the DMS / DDM constructors when no `positive` flag is given, on the full table of sign patterns of their fields
+    (constant arguments fold exactly): negative iff the degrees are negative, or the degrees are zero and the minutes (seconds) are negative.
+    A field of exactly ZERO is not negative - abs(), negation and round() rebuild sub-degree angles with seconds 0."""
+    from fractions import Fraction as F
+    from ..symval import Evaluator, Bool
+    m = repo.module('geodepy.angles')
+    for cname, fields in (('DMSAngle', ((-1, 0, 1), (-30, 0, 30), (F(-21, 2), 0, F(21, 2)))), ('DDMAngle', ((-1, 0, 1), (F(-61, 2), 0, F(61, 2))))):
+        cls = m.classes.get(cname)
+        if cls is None or cls.init() is None:
+            rep.undecided('R-TABLE', 'R-TABLE::geodepy/angles.py::%s::sign-table' % cname, 'geodepy/angles.py:1', 'class %s not found' % cname)
+            continue
+        init = cls.init()
+        import itertools
+        bad = []
+        n = 0
+        for combo in itertools.product(*fields):
+            ev = Evaluator(repo)
+            ev.fold_const_types = True
+            try:
+                o = ev.construct(cls, [C(x) for x in combo], {}, None)
+            except Exception:
+                o = None
+            got = o.fields.get('positive') if o is not None else None
+            d = combo[0]
+            rest_negative = any(x < 0 for x in combo[1:])
+            want = not (d < 0 or (d == 0 and rest_negative))
+            n += 1
+            if not isinstance(got, Bool):
+                bad.append((combo, 'not decided'))
+            elif got.b != want:
+                bad.append((combo, got.b))
+        key = 'R-TABLE::geodepy/angles.py::%s.__init__::sign-table' % cname
+        if not bad:
+            rep.holds('R-TABLE', key, where(init, init.node), '%s(...) without a sign flag: the sign follows the first non-zero field on all %d sign patterns of the fields (zero is not negative)' % (cname, n))
+        else:
+            combo, got = bad[0]
+            if got == 'not decided':
+                rep.undecided('R-TABLE', key, where(init, init.node), '%s%s: inferred sign does not fold to a constant' % (cname, tuple(float(x) for x in combo)))
+            else:
+                rep.violated('R-TABLE', key, where(init, init.node), '%s%s is built as a %s angle (%d of %d sign patterns are wrong): a field of exactly zero is read as negative / a negative '
+                             'field is missed - abs(), negation and round() of an angle below one degree rebuild it this way' % (
+                                 cname, tuple(float(x) for x in combo), 'positive' if got else 'negative', len(bad), n),
+                             expected='negative iff degrees < 0, or degrees == 0 and a later field < 0', actual='positive=%s' % got)
 
 
 def tm_division_rules(repo, rep):
